@@ -210,6 +210,19 @@ HARNESSES += [
          unwind=8, unwindset=MNT_UW, backends=["default"],
          bound="bits 0..30 of s_default_mount_opts, enumerated"),
 ]
+HARNESSES += [
+    dict(name="inoscan", src="inoscan.c", extra_src=["lib/ext2fs/blknum.c", "lib/ext2fs/valid_blk.c"],
+         funcs=["inode_scan_and_fix", "translate_block", "process_block", "ext2fs_file_acl_block", "ext2fs_file_acl_block_set",
+                "ext2fs_inode_has_valid_blocks2"],
+         stubs=BM_STUBS + ["ext2fs_open_inode_scan", "ext2fs_close_inode_scan", "ext2fs_get_next_inode", "ext2fs_write_inode", "ext2fs_block_iterate3"],
+         configs=[{}],
+         unwind=4, unwindset=["main.%d:18" % i for i in range(12)] +
+                             ["ext2fs_test_generic_bmap.0:17", "ext2fs_mark_generic_bmap.0:17", "ext2fs_unmark_generic_bmap.0:17",
+                              "translate_block.0:4", "inode_scan_and_fix.0:3"],
+         backends=["default", "kissat"],
+         bound="one inode per scan: every number, link count, mode, flag word, size, i_blocks, i_block[] content, xattr block among 16 blocks; "
+               "to-move bitmap and a 2-entry move list (targets up to 2^48 with the 64bit feature) symbolic"),
+]
 MANIFEST = {
     "level": "model_checking",
     "technique": "Bounded-exhaustive model checking (CBMC 6.11) of kernel slices of misc/tune2fs.c and lib/e2p/feature.c compiled from the real "
